@@ -3,6 +3,12 @@
 Correspondence: Lean `Quote.escape` / `renderSimpleH` / `renderFullH` / `renderSimple` /
 `unescape5` vs the real insertion forms.  Oracle: html.escape / html.unescape from the
 standard library on the implementation's output.
+
+Besides single values through every spelling: (A) html quoting with every other option of the tag, (B) scenes (random
+template bodies rendered repeatedly with changing data; every scene has an encoding, non-ASCII bytes subjects, the else /
+handler / finally sections of the block tags and a sub-template of another encoding), (C) places (the insertion in every
+section of every block tag x spellings x encodings x value histories; tied to the Lean interpreter for utf-8 / latin-1),
+(D) compositions (one rendering made by several template objects with encodings, classes and provenances of their own).
 """
 import html
 import itertools
@@ -406,9 +412,25 @@ BLOCKS = [('<dtml-if one>', '</dtml-if>', 1), ('<dtml-in seq>', '</dtml-in>', 1)
           ('<dtml-unless zero>', '</dtml-unless>', 1), ('<dtml-try>', '<dtml-except>E</dtml-try>', 1),
           ('<dtml-if zero>no<dtml-else>', '</dtml-if>', 1), ('<dtml-if zero>no<dtml-elif one>', '<dtml-else>no</dtml-if>', 1),
           ('<dtml-in seq2 reverse>', '</dtml-in>', 2), ('<dtml-if zero>', '</dtml-if>', 0),
-          ('<dtml-try>', '<dtml-finally></dtml-try>', 1)]
+          ('<dtml-try>', '<dtml-finally></dtml-try>', 1),
+          # the OTHER sections of the block tags: the else block of a loop (empty sequence, with and without batching;
+          # previous / next form without a previous / next batch), handler, else and finally sections of dtml-try
+          ('<dtml-in empty>no<dtml-else>', '</dtml-in>', 1), ('<dtml-in empty size=2>no<dtml-else>', '</dtml-in>', 1),
+          ('<dtml-in seq2 previous size=1 start=1>no<dtml-else>', '</dtml-in>', 1),
+          ('<dtml-in seq2 next size=5>no<dtml-else>', '</dtml-in>', 1),
+          ('<dtml-in seq2 next size=1>', '<dtml-else>no</dtml-in>', 1),
+          ('<dtml-in empty sort=k>no<dtml-else>', '</dtml-in>', 1),
+          ('<dtml-try><dtml-raise KeyError>k</dtml-raise><dtml-except>', '</dtml-try>', 1),
+          ('<dtml-try><dtml-except>E<dtml-else>', '</dtml-try>', 1), ('<dtml-try><dtml-finally>', '</dtml-try>', 1)]
 BLOCKS_E = [('%(if one)[', '%(if)]', 1), ('%(in seq)[', '%(in)]', 1), ('%(in seq2)[', '%(in)]', 2),
-            ('%(with o)[', '%(with)]', 1), ('%(unless zero)[', '%(unless)]', 1)]
+            ('%(with o)[', '%(with)]', 1), ('%(unless zero)[', '%(unless)]', 1),
+            ('%(in empty)[no%(else)[', '%(in)]', 1), ('%(if zero)[no%(else)[', '%(if)]', 1),
+            ('%(try)[%(except)[E%(else)[', '%(try)]', 1)]
+# a bytes value with non-ASCII characters (in the scene template's encoding) is inserted by the simple quoting forms only:
+# the full Var.render path decodes bytes as Latin-1 (known finding C03-bytes-fullpath)
+N_SIMPLE_Q = 6
+N_SIMPLE_Q_E = 2
+SCENE_ENCODINGS = [None, None, 'utf-8', 'latin-1', 'cp1252']
 LITERALS = ['|', ';', 'lit', '<b>', '&amp;', '"', "'", '/']
 EMPTY_TAGS = ['<dtml-call "1">', '<dtml-comment>x</dtml-comment>', '<dtml-var nothing missing="">']
 # the variables a scene may insert: subjects (dense in specials) and by-standers
@@ -423,7 +445,9 @@ def gen_scene(r, epfs, depth=0):
     n = r.randint(2, 6) if depth == 0 else r.randint(1, 4)
     for _ in range(n):
         c = r.random()
-        if c < 0.40:
+        if c < 0.10:
+            pieces.append(('ins', r.choice(qf[:N_SIMPLE_Q_E if epfs else N_SIMPLE_Q]).replace('§', 'bz'), 'bz', True))
+        elif c < 0.40:
             var = r.choice(SUBJECTS)
             pieces.append(('ins', r.choice(qf).replace('§', var), var, True))
         elif c < 0.70:
@@ -432,7 +456,9 @@ def gen_scene(r, epfs, depth=0):
             pieces.append(('ins', r.choice(qf if quoted else pf).replace('§', var), var, quoted))
         elif c < 0.75 and not epfs:
             # a sub-template inserted by name: rendered in this namespace, its text inserted as is
-            pieces.append(('ins', r.choice(['<dtml-var sub>', '<!--#var sub-->', '<dtml-var name=sub>']), 'sub', False))
+            sub = r.choice(['sub', 'sub2'])
+            pieces.append(('ins', r.choice(['<dtml-var §>', '<!--#var §-->', '<dtml-var name=§>',
+                                            '<dtml-var "§(None, _)">']).replace('§', sub), sub, False))
         elif c < 0.87 and depth < 2:
             o, cl, times = r.choice(blocks)
             pieces.append(('blk', o, cl, times, gen_scene(r, epfs, depth + 1)))
@@ -468,15 +494,31 @@ def sub_template():
     return _sub[0]
 
 
+_sub2 = {}
+
+
+def sub2_template(enc):
+    """a second template object with an encoding of its OWN (never the scene's): it inserts bz2, a bytes value in that
+    encoding, so one rendering is put together by template objects of different encodings"""
+    if enc not in _sub2:
+        from DocumentTemplate import HTML
+        _sub2[enc] = HTML('(&dtml-bz2;<dtml-var bz2 html_quote>)', encoding=enc)
+    return _sub2[enc]
+
+
 def text_of(d, data=None):
     """the string form of a described value"""
     k = d['t']
     if k == 'sub':
         return '[' + _esc(text_of(data['x'])) + (_esc if data['t']['t'] == 'tainted' else _ident)(text_of(data['t'])) + ']'
+    if k == 'sub2':
+        return '(' + _esc(text_of(data['bz2'])) * 2 + ')'
     if k in ('str', 'tainted', 'obj'):
         return d['v']
     if k == 'bytes':
         return d['v']                  # ASCII only
+    if k == 'bytes8':
+        return d['v']                  # the text the bytes stand for in the encoding d['enc']
     if k == 'int':
         return str(d['v'])
     if k == 'none':
@@ -503,6 +545,10 @@ def make_value(d):
                              'Exception': Exception})
     if k == 'sub':
         return sub_template()
+    if k == 'sub2':
+        return sub2_template(d['enc'])
+    if k == 'bytes8':
+        return d['v'].encode(d['enc'])
     if k == 'str':
         return d['v']
     if k == 'tainted':
@@ -544,7 +590,16 @@ def scene_expected(pieces, data):
 SCENE_ALPHA = list(SPECIALS) * 3 + ['a', 'Z', ' ', ';', 'é', '€', '\U0001F600', '&amp;', '&#x27;', 'b>', '<i']
 
 
-def gen_data(r, prev=None):
+BYTES8_ALPHA = list(SPECIALS) * 2 + ['a', ' ', ';', 'é', 'ü', 'ß', 'ÿ', 'Ä', '&amp;']     # encodable everywhere
+
+
+def gen_data(r, prev=None, enc=None):
+    def bytes8(e):
+        while True:
+            s = ''.join(r.choice(BYTES8_ALPHA) for _ in range(r.choice([1, 2, 3, 5, 8])))
+            if any(ord(ch) > 127 for ch in s) or r.random() < 0.15:
+                return {'t': 'bytes8', 'v': s, 'enc': e}
+
     def special_text():
         while True:
             s = ''.join(r.choice(SCENE_ALPHA) for _ in range(r.choice([1, 2, 3, 5, 8])))
@@ -576,6 +631,11 @@ def gen_data(r, prev=None):
          'n': {'t': 'int', 'v': r.choice([0, 7, -3, 10 ** 6])},
          'b': {'t': 'bytes', 'v': r.choice(['by', '<by>', "b'&", 'plain'])},
          'none': {'t': 'none'}, 'sub': {'t': 'sub'}}
+    own = enc or 'utf-8'                  # a template created without an encoding is a UTF-8 template
+    other = r.choice([e for e in ('utf-8', 'latin-1', 'cp1252', 'utf-16') if e != own])
+    d['bz'] = bytes8(own)
+    d['bz2'] = bytes8(other)
+    d['sub2'] = {'t': 'sub2', 'enc': other}
     if prev is not None and r.random() < 0.3:
         # the same subject again after other data went through the template
         d['x'] = prev['x']
@@ -585,14 +645,15 @@ def gen_data(r, prev=None):
 def render_scene(t, data):
     kw = {k: make_value(d) for k, d in data.items()}
     try:
-        return t(one=1, zero=0, seq=[1], seq2=[1, 2], o=_O(), **kw)
+        return t(one=1, zero=0, seq=[1], seq2=[1, 2], empty=[], o=_O(), **kw)
     except Exception as e:  # noqa
         return ('EXC', type(e).__name__, str(e)[:80])
 
 
-def fresh_template(syntax, src):
+def fresh_template(syntax, src, encoding=None):
     from DocumentTemplate import HTML, String
-    return (HTML if syntax == 'html' else String)(src)
+    cls = HTML if syntax == 'html' else String
+    return cls(src, encoding=encoding) if encoding else cls(src)
 
 
 def check_scenes(res, tier, r):
@@ -603,11 +664,13 @@ def check_scenes(res, tier, r):
         syntax = 'epfs' if epfs else 'html'
         pieces = gen_scene(r, epfs)
         src = scene_source(pieces)
-        t = fresh_template(syntax, src)
+        enc = r.choice(SCENE_ENCODINGS)
+        t = fresh_template(syntax, src, enc)
+        res.count('scene_encoding=%s' % enc)
         history = []
         data = None
         for k in range(r.choice([2, 4, 6])):
-            data = gen_data(r, data)
+            data = gen_data(r, data, enc)
             want = scene_expected(pieces, data)
             out = render_scene(t, data)
             if isinstance(out, bytes):
@@ -622,7 +685,7 @@ def check_scenes(res, tier, r):
             if k:
                 res.count('scene_rerenders_of_a_compiled_template')
             if out != want:
-                res.oracle_fail.append({'case': {'scene': src, 'syntax': syntax, 'data': data,
+                res.oracle_fail.append({'case': {'scene': src, 'syntax': syntax, 'data': data, 'encoding': enc,
                                                  'history': list(history), 'expected': want},
                                         'what': 'output %r, expected %r (every piece: literal text verbatim, quoted '
                                                 'and tainted insertions html.escape of the string form, others '
@@ -636,6 +699,604 @@ def check_scenes(res, tier, r):
             res.sample({'scene': src, 'data': data, 'output': out})
             sampled = True
 
+
+
+# ----------------------------------------------------------------------------------------------
+# (C) PLACES: the quoted insertion in EVERY section of EVERY block tag (body / else of dtml-in in all its modes: plain,
+# mapping, prefix, sorted, reversed, batched, previous / next with and without a neighbouring batch, empty sequence; the
+# branches of if / elif / else / unless; with (plain, only, mapping); let; body / handler / else / finally of try; the
+# message of raise; a sub-template; a comment; the body of dtml-tree), alone in its section (a one-piece section is handed
+# on as it is) and between two literal pieces (a section of several pieces is joined), x every spelling of the
+# insertion x every template encoding x every kind of value (text, bytes in the template's encoding, tainted text, an
+# object), one compiled template rendered with all the values one after the other.
+# The places are written once, as block trees of the interpreter model (proggen's JSON): `print_blocks` spells them, the
+# Lean interpreter renders them (correspondence, utf-8 and latin-1 templates) and the table PLACE_EXPECT -- written by
+# hand from the documentation of the tags -- says what surrounds the insertion and how often it is rendered.
+
+HOLE = '@@HOLE@@'
+
+
+def _var(n, hq=False, expr=False):
+    return ['var', (['e', ['name', n]] if expr else ['n', n]), hq, None, None]
+
+
+def _lit(t):
+    return ['lit', t]
+
+
+def place_blocks(H):
+    """name -> blocks with the hole blocks H in the place"""
+    n = [_lit('n')]
+    kraise = [['raise', 'KeyError', None, [_lit('k')]]]
+    return {
+        'top': H,
+        'if': [['cond', [[['n', 'one'], H]], None]],
+        'if-expr': [['cond', [[['e', ['name', 'one']], H]], None]],
+        'if-else': [['cond', [[['n', 'zero'], n]], H]],
+        'elif': [['cond', [[['n', 'zero'], n], [['n', 'one'], H]], n]],
+        'elif-else': [['cond', [[['n', 'zero'], n], [['e', ['name', 'zero']], n]], H]],
+        'unless': [['unless', ['n', 'zero'], H]],
+        'in': [['in', ['n', 'seq2'], {}, H, None]],
+        'in-expr': [['in', ['e', ['name', 'seq2']], {}, H, n]],
+        'in-else': [['in', ['n', 'empty'], {}, n, H]],
+        'in-else-expr': [['in', ['e', ['name', 'empty']], {}, n, H]],
+        'in-mapping': [['in', ['n', 'maps'], {'mapping': True}, H, None]],
+        'in-mapping-else': [['in', ['n', 'empty'], {'mapping': True}, n, H]],
+        'in-prefix': [['in', ['n', 'seq2'], {'prefix': 'pf'}, H, None]],
+        'in-nopush': [['in', ['n', 'seq2'], {'noPush': True}, H, None]],
+        'in-sort': [['inx', ['n', 'objs'], {}, {'sort': 'k'}, H, None]],
+        'in-sort-else': [['inx', ['n', 'empty'], {}, {'sort': 'k'}, n, H]],
+        'in-reverse': [['inx', ['n', 'seq2'], {}, {'reverse': True}, H, None]],
+        'in-reverse-else': [['inx', ['n', 'empty'], {}, {'reverse': True}, n, H]],
+        'in-size': [['inx', ['n', 'seq3'], {}, {'batch': {'size': 2}}, H, None]],
+        'in-start': [['inx', ['n', 'seq3'], {}, {'batch': {'start': 2, 'size': 5}}, H, None]],
+        'in-size-else': [['inx', ['n', 'empty'], {}, {'batch': {'size': 3}}, n, H]],
+        'in-previous': [['inx', ['n', 'seq3'], {}, {'batch': {'size': 1, 'start': 2, 'previous': True}}, H, n]],
+        'in-previous-else': [['inx', ['n', 'seq3'], {}, {'batch': {'size': 2, 'start': 1, 'previous': True}}, n, H]],
+        'in-previous-else-empty': [['inx', ['n', 'empty'], {}, {'batch': {'size': 2, 'previous': True}}, n, H]],
+        'in-next': [['inx', ['n', 'seq3'], {}, {'batch': {'size': 1, 'start': 1, 'next': True}}, H, n]],
+        'in-next-else': [['inx', ['n', 'seq3'], {}, {'batch': {'size': 5, 'start': 1, 'next': True}}, n, H]],
+        'in-next-else-empty': [['inx', ['n', 'empty'], {}, {'batch': {'size': 2, 'next': True}}, n, H]],
+        'with': [['with', ['n', 'wobj'], False, False, H]],
+        'with-only': [['with', ['n', 'wobj'], False, True, H]],
+        'with-mapping': [['with', ['n', 'm0'], True, False, H]],
+        'let': [['let', [['q', ['n', 'one']]], H]],
+        'let-expr': [['let', [['q', ['e', ['name', 'one']]]], H]],
+        'try': [['try', H, [['', [_lit('h')]]], None]],
+        'try-else': [['try', [_lit('B')], [['', [_lit('h')]]], H]],
+        'try-body-before-else': [['try', H, [['', [_lit('h')]]], [_lit('E')]]],
+        'handler': [['try', kraise, [['', H]], None]],
+        'handler-named': [['try', kraise, [['ValueError', [_lit('v')]], ['KeyError', H]], None]],
+        'try-before-finally': [['tryfin', H, [_lit('F')]]],
+        'finally': [['tryfin', [_lit('B')], H]],
+        'raise-message': [['try', [['raise', 'ValueError', None, H]], [['', [_var('error_value')]]], None]],
+    }
+
+
+# name -> (text before, how often the place is rendered, text after); from the documentation of the tags: a branch /
+# section is rendered once when it is the chosen one, a loop body once per element of the window (seq2 has two
+# elements, seq3 three, objs two, maps two), the previous / next form once when there is such a batch and the else block
+# otherwise, an empty sequence renders the else block, finally and else sections follow the body's output
+PLACE_EXPECT = {
+    'top': ('', 1, ''), 'if': ('', 1, ''), 'if-expr': ('', 1, ''), 'if-else': ('', 1, ''), 'elif': ('', 1, ''),
+    'elif-else': ('', 1, ''), 'unless': ('', 1, ''),
+    'in': ('', 2, ''), 'in-expr': ('', 2, ''), 'in-else': ('', 1, ''), 'in-else-expr': ('', 1, ''),
+    'in-mapping': ('', 2, ''), 'in-mapping-else': ('', 1, ''), 'in-prefix': ('', 2, ''), 'in-nopush': ('', 2, ''),
+    'in-sort': ('', 2, ''), 'in-sort-else': ('', 1, ''), 'in-reverse': ('', 2, ''), 'in-reverse-else': ('', 1, ''),
+    'in-size': ('', 2, ''), 'in-start': ('', 2, ''), 'in-size-else': ('', 1, ''),
+    'in-previous': ('', 1, ''), 'in-previous-else': ('', 1, ''), 'in-previous-else-empty': ('', 1, ''),
+    'in-next': ('', 1, ''), 'in-next-else': ('', 1, ''), 'in-next-else-empty': ('', 1, ''),
+    'with': ('', 1, ''), 'with-only': ('', 1, ''), 'with-mapping': ('', 1, ''), 'let': ('', 1, ''), 'let-expr': ('', 1, ''),
+    'try': ('', 1, ''), 'try-else': ('B', 1, ''), 'try-body-before-else': ('', 1, 'E'), 'handler': ('', 1, ''),
+    'handler-named': ('', 1, ''), 'try-before-finally': ('', 1, 'F'), 'finally': ('B', 1, ''), 'raise-message': ('', 1, ''),
+}
+# places the interpreter model / its printer does not spell: source text with the hole, (before, times, after) and how
+# the result is observed: 'out' = the rendering, 'exc' = the value of the exception that leaves the rendering,
+# 'frame' = the rendering of the same source with a literal in the hole, the literal replaced (dtml-tree: the table
+# around the body is not this property's subject, the body is)
+TEXT_PLACES = {
+    'comment': ('<dtml-comment>' + HOLE + '</dtml-comment>', ('', 0, ''), 'out'),
+    'raise-uncaught': ('<dtml-raise ValueError>' + HOLE + '</dtml-raise>', ('', 1, ''), 'exc'),
+    'raise-uncaught-expr': ('<dtml-raise expr="cls">' + HOLE + '</dtml-raise>', ('', 1, ''), 'exc'),
+    'in-sort_expr': ('<dtml-in objs sort_expr="\'k\'">' + HOLE + '</dtml-in>', ('', 2, ''), 'out'),
+    'in-reverse_expr-else': ('<dtml-in empty reverse_expr="one">n<dtml-else>' + HOLE + '</dtml-in>', ('', 1, ''), 'out'),
+    'in-size-by-name': ('<dtml-in seq3 size=two>' + HOLE + '</dtml-in>', ('', 2, ''), 'out'),
+    'in-size-by-name-else': ('<dtml-in empty size=two start=one>n<dtml-else>' + HOLE + '</dtml-in>', ('', 1, ''), 'out'),
+    'in-end': ('<dtml-in seq3 end=2>' + HOLE + '</dtml-in>', ('', 2, ''), 'out'),
+    'in-orphan': ('<dtml-in seq3 size=2 orphan=0>' + HOLE + '<dtml-else>n</dtml-in>', ('', 2, ''), 'out'),
+    'in-skip_unauthorized-else': ('<dtml-in empty skip_unauthorized>n<dtml-else>' + HOLE + '</dtml-in>', ('', 1, ''), 'out'),
+    'in-previous-by-name-else': ('<dtml-in seq3 previous size=two start=one>n<dtml-else>' + HOLE + '</dtml-in>',
+                                 ('', 1, ''), 'out'),
+    'in-next-orphan-else': ('<dtml-in seq3 next size=2 orphan=2>n<dtml-else>' + HOLE + '</dtml-in>', ('', 1, ''), 'out'),
+    'with-expr': ('<dtml-with expr="wobj">' + HOLE + '</dtml-with>', ('', 1, ''), 'out'),
+    'let-two': ('<dtml-let q=one r="q + 1">' + HOLE + '</dtml-let>', ('', 1, ''), 'out'),
+    'except-else-finally-less': ('<dtml-try><dtml-raise expr="cls">k</dtml-raise><dtml-except ValueError>' + HOLE +
+                                 '<dtml-except>h</dtml-try>', ('', 1, ''), 'out'),
+    'tree': ('<dtml-tree root>' + HOLE + '</dtml-tree>', None, 'frame'),
+    'tree-sorted': ('<dtml-tree root sort=nid reverse>' + HOLE + '</dtml-tree>', None, 'frame'),
+}
+TEXT_PLACES_E = {
+    'top': (HOLE, ('', 1, ''), 'out'),
+    'if': ('%(if one)[' + HOLE + '%(if)]', ('', 1, ''), 'out'),
+    'if-else': ('%(if zero)[n%(else)[' + HOLE + '%(if)]', ('', 1, ''), 'out'),
+    'unless': ('%(unless zero)[' + HOLE + '%(unless)]', ('', 1, ''), 'out'),
+    'in': ('%(in seq2)[' + HOLE + '%(in)]', ('', 2, ''), 'out'),
+    'in-else': ('%(in empty)[n%(else)[' + HOLE + '%(in)]', ('', 1, ''), 'out'),
+    'in-size-else': ('%(in empty size=2)[n%(else)[' + HOLE + '%(in)]', ('', 1, ''), 'out'),
+    'in-previous-else': ('%(in seq3 previous size=2 start=1)[n%(else)[' + HOLE + '%(in)]', ('', 1, ''), 'out'),
+    'in-next-else': ('%(in seq3 next size=5)[n%(else)[' + HOLE + '%(in)]', ('', 1, ''), 'out'),
+    'with': ('%(with wobj)[' + HOLE + '%(with)]', ('', 1, ''), 'out'),
+    'let': ('%(let q=one)[' + HOLE + '%(let)]', ('', 1, ''), 'out'),
+    'try': ('%(try)[' + HOLE + '%(except)[h%(try)]', ('', 1, ''), 'out'),
+    'handler': ('%(try)[%(raise KeyError)[k%(raise)]%(except)[' + HOLE + '%(try)]', ('', 1, ''), 'out'),
+    'finally': ('%(try)[B%(finally)[' + HOLE + '%(try)]', ('B', 1, ''), 'out'),
+}
+PLACE_SIMPLE = ['&dtml-x;', '<dtml-var x html_quote>', '<dtml-var name=x html_quote>', '<dtml-var name="x" html_quote>',
+                '<dtml-var expr="x" html_quote>', '<dtml-var "x" html_quote>', '<!--#var x html_quote-->']
+PLACE_FULL = ['<dtml-var x fmt=html-quote>', '<dtml-var x html_quote missing="M">', '<dtml-var x html_quote size=100000>',
+              '&dtml.html_quote-x;', '<dtml-var expr="x" fmt="html-quote">', '<dtml-var name=x missing=M html_quote>',
+              '<dtml-var x html_quote null="">']
+PLACE_SIMPLE_E = ['%(x html_quote)s', '%(var x html_quote)s', '%(name=x html_quote)s'][:2]
+PLACE_FULL_E = ['%(x fmt=html-quote)s', '%(x html_quote missing=M)s']
+PLACE_ENCODINGS = [None, 'utf-8', 'latin-1', 'cp1252', 'utf-16']
+PLACE_TEXTS = ['Gr\xfc\xdfe <b>"M\xfcller" & \'S\xf6hne\'</b>', '\xe9<', '€"', "\xff&'", 'plain', '<', 'x\U0001F600>',
+               '\xc4\xa4', '&amp;\xdf']
+SENT_A, SENT_B = '{|', '|}'
+
+
+class PNode:
+    def __init__(self, nid, kids=()):
+        self.nid = nid
+        self.kids = list(kids)
+
+    def tpValues(self):
+        return self.kids
+
+    def tpId(self):
+        return self.nid
+
+    def tpURL(self):
+        return 'u' + self.nid
+
+
+class PResp:
+    def setCookie(self, k, v, **kw):
+        pass
+
+
+class KObj:
+    def __init__(self, k, **kw):
+        self.k = k
+        self.__dict__.update(kw)
+
+
+def place_namespace(x):
+    import TreeDisplay  # noqa: F401  registers the dtml-tree tag
+    ns = dict(x=x, one=1, two=2, zero=0, seq2=[1, 2], seq3=[KObj(2), KObj(1), KObj(3)], objs=[KObj(2), KObj(1)],
+              empty=[], maps=[{'m': 1}, {'m': 2}], m0={'m': 1}, cls=ValueError,
+              root=PNode('r', [PNode('a'), PNode('b')]), URL='http://h/t', REQUEST={}, RESPONSE=PResp())
+    # the object of the with places has every name as an attribute: `with wobj only` hides the rest of the namespace
+    ns['wobj'] = w = KObj(0, **ns)
+    w.wobj = w
+    return ns
+
+
+def to_ssi(src):
+    """the same template in the server-side-include spelling of every tag"""
+    src = re.sub(r'</dtml-([a-z]+)>', r'<!--#/\1-->', src)
+    return re.sub(r'<dtml-([a-z]+)((?:"[^"]*"|[^>"])*)>', r'<!--#\1\2-->', src)
+
+
+def described(kind, text, enc):
+    if kind == 'bytes':
+        return {'t': 'bytes8', 'v': text, 'enc': enc or 'utf-8'}
+    return {'t': {'text': 'str', 'tainted': 'tainted', 'obj': 'obj'}[kind], 'v': text}
+
+
+def place_observe(t, d, mode):
+    try:
+        out = t(**place_namespace(make_value(d)))
+        if mode == 'exc':
+            out = ('NO-EXCEPTION', out)
+    except Exception as e:  # noqa
+        if mode == 'exc' and type(e) is ValueError and len(e.args) == 1:
+            out = e.args[0]
+        else:
+            out = ('EXC', type(e).__name__, str(e)[:80])
+    return out
+
+
+def place_expected(syntax, frame, encoding, expect, mode, inner):
+    """frame: the source with HOLE where the insertion stands"""
+    if mode == 'frame':
+        mark = 'QFRAMEQ'
+        out = fresh_template(syntax, frame.replace(HOLE, mark), encoding)(**place_namespace('unused'))
+        return out.replace(mark, inner)
+    pre, times, post = expect
+    return pre + inner * times + post
+
+
+def place_inner(d, between, expect, mode):
+    inner = _esc(d['v'])
+    if between:
+        inner = SENT_A + inner + SENT_B
+    return inner
+
+
+def place_case(syntax, frame, ins, encoding, history, expect, mode, upto=None):
+    """a NEW template object renders the described values of `history` one after the other; returns the first
+    (index, output, expected) that differs, or None"""
+    t = fresh_template(syntax, frame.replace(HOLE, ins), encoding)
+    between = ins.startswith(SENT_A)
+    for k, d in enumerate(history):
+        out = place_observe(t, d, mode)
+        want = place_expected(syntax, frame, encoding, expect, mode, place_inner(d, between, expect, mode))
+        if out != want:
+            return k, out, want
+    return None
+
+
+def all_places(tier, r):
+    """(name, syntax, source with the hole, expectation, mode)"""
+    out = []
+    hole = [_lit(HOLE)]
+    single = place_blocks(hole)
+    for name, blocks in single.items():
+        out.append((name, 'html', proggen_print(blocks), PLACE_EXPECT[name], 'out'))
+    for name, (src, expect, mode) in TEXT_PLACES.items():
+        out.append((name, 'html', src, expect, mode))
+    for name, (src, expect, mode) in TEXT_PLACES_E.items():
+        out.append((name, 'epfs', src, expect, mode))
+    # one place inside another: the inner section's text is what the outer section renders
+    names = sorted(single)
+    pairs = [(a, b) for a in names for b in names if a != 'top' and b != 'top']
+    if tier == 'quick':
+        pairs = r.sample(pairs, 120)
+    for a, b in pairs:
+        inner = place_blocks(hole)[b]
+        blocks = place_blocks(inner)[a]
+        (pa, ta, qa), (pb, tb, qb) = PLACE_EXPECT[a], PLACE_EXPECT[b]
+        # outer renders `inner output` ta times: inner output = pb + H*tb + qb; only frames that keep the shape
+        # before + H*times + after are used (the others would need a general shape; they are covered singly)
+        if ta != 1 and (pb or qb):
+            continue
+        out.append((a + '/' + b, 'html', proggen_print(blocks), (pa + pb, ta * tb, qb + qa), 'out'))
+    return out
+
+
+def proggen_print(blocks):
+    import proggen
+    return proggen.print_blocks(blocks)
+
+
+def place_history(r, tier, enc, is_full):
+    """the values one compiled template sees, one after the other: bytes, text, bytes, tainted, object, ..., and the first
+    one again at the end"""
+    own = enc or 'utf-8'                  # a template created without an encoding is a UTF-8 template
+    texts = r.sample(PLACE_TEXTS, 4 if tier == 'quick' else len(PLACE_TEXTS))
+    kinds = ['bytes', 'text', 'bytes', 'tainted', 'obj', 'bytes', 'bytes', 'text', 'bytes']
+    history = []
+    for t, kind in zip(texts, kinds):
+        if kind == 'bytes':
+            try:
+                b = t.encode(own)
+            except UnicodeEncodeError:
+                kind = 'text'
+            else:
+                if is_full and b.decode('latin-1', 'replace') != t:
+                    kind = 'text'       # left out: known finding C03-bytes-fullpath (the full path decodes as Latin-1)
+        history.append(described(kind, t, enc))
+    history.append(history[0])
+    return history
+
+
+def check_places(res, tier, r, have_driver):
+    places = all_places(tier, r)
+    sampled = False
+    for name, syntax, frame, expect, mode in places:
+        res.count('places')
+        simple, full = (PLACE_SIMPLE_E, PLACE_FULL_E) if syntax == 'epfs' else (PLACE_SIMPLE, PLACE_FULL)
+        nested = '/' in name
+        quick = tier == 'quick'
+        if nested:
+            chosen = r.sample(simple, 2 if quick else 3)
+        elif quick:
+            chosen = simple[:2] + r.sample(simple[2:], min(2, len(simple) - 2))      # entity, var html_quote + 2 others
+        else:
+            chosen = simple
+        forms = [(f, False) for f in chosen]
+        forms += [(f, True) for f in (r.sample(full, 1 if nested else 2) if quick or nested else full)]
+        frames = [(syntax, frame)]
+        if syntax == 'html' and '<dtml-' in frame and not nested:
+            frames.append(('html', to_ssi(frame)))
+        for form, is_full in forms:
+            encs = PLACE_ENCODINGS
+            if nested:
+                encs = [None] + r.sample(PLACE_ENCODINGS[1:], 1 if quick else 2)
+            for enc in encs:
+                history = place_history(r, tier, enc, is_full)
+                for ins in (form, SENT_A + form + SENT_B):
+                    for fi, (syn, fr) in enumerate(frames):
+                        if quick and fi and (ins != form or enc not in (None, 'latin-1')):
+                            continue          # quick: the SSI spelling of the frame for two encodings only
+                        bad = place_case(syn, fr, ins, enc, history, expect, mode)
+                        res.evaluations += len(history)
+                        res.count('place_renders', len(history))
+                        res.count('place_templates')
+                        for d in history:
+                            res.count('place_value=' + d['t'])
+                            if any(c in d['v'] for c in SPECIALS):
+                                res.nt(('place', name, syn, form, enc, d['t'], d['v']))
+                        if bad:
+                            k, out, want = bad
+                            res.oracle_fail.append({
+                                'case': {'kind': 'place', 'place': name, 'syntax': syn, 'frame': fr, 'insertion': ins,
+                                         'source': fr.replace(HOLE, ins), 'encoding': enc, 'history': history[:k + 1],
+                                         'expect': expect, 'mode': mode, 'expected': want},
+                                'what': 'place %s, rendering %d of a new template: output %r, expected %r (html.escape of '
+                                        'the value, bytes decoded with the encoding of the template)' % (name, k + 1, out, want)})
+                        if not sampled and name == 'in-else' and history[0]['t'] == 'bytes8' and not bad:
+                            res.sample({'place': name, 'source': fr.replace(HOLE, ins), 'encoding': enc,
+                                        'history': history[:2], 'each output': 'html.escape(text the bytes stand for)'})
+                            sampled = True
+
+
+def model_case(blocks, xval, enc, sub):
+    """a case of the interpreter correspondence: the same namespace as place_namespace, in the driver's JSON form"""
+    import proggen
+
+    def o(i, k, **kw):
+        return {'o': i, 'a': [['k', k]] + [[a, b] for a, b in kw.items()]}
+    ns = {'x': xval, 'one': 1, 'two': 2, 'zero': 0, 'seq2': {'l': [1, 2]}, 'seq3': {'l': [o(1, 2), o(2, 1), o(3, 3)]},
+          'objs': {'l': [o(4, 2), o(5, 1)]}, 'empty': {'l': []}, 'maps': {'l': [{'d': [['m', 1]]}, {'d': [['m', 2]]}]},
+          'wobj': {'o': 6, 'a': [['k', 0], ['x', xval]]}, 'm0': {'d': [['m', 1]]}, 'sub0': {'T': 1}}
+    return {'templates': [{'blocks': blocks, 'globals': [], 'vars': [], 'source': proggen.print_blocks(blocks)},
+                          {'blocks': sub, 'globals': [], 'vars': [], 'source': proggen.print_blocks(sub)}],
+            'main': 0, 'clients': [], 'mapping': [], 'kw': [[k, v] for k, v in ns.items()],
+            'classes': proggen.class_table(), 'denied': [], 'guard': False, 'utf8': enc == 'utf-8', 'encoding': enc}
+
+
+def corr_places(res, tier, r):
+    """the places on the Lean interpreter (utf-8 and latin-1 templates, bytes and text values, the insertion alone in
+    its section and between literals, by name and by expression, directly and in a sub-template called by name): model
+    == real classes, and the real classes' result == the expectation table"""
+    import interp
+    names = sorted(PLACE_EXPECT)
+    pairs = [(a, b) for a in names for b in names if a != 'top' and b != 'top' and a != 'with-only'
+             and not (PLACE_EXPECT[a][1] != 1 and (PLACE_EXPECT[b][0] or PLACE_EXPECT[b][2]))]
+    cases, meta = [], []
+    texts = PLACE_TEXTS if tier == 'thorough' else PLACE_TEXTS[:3] + r.sample(PLACE_TEXTS[3:], 1)
+    for enc in ('utf-8', 'latin-1'):
+        for t in texts:
+            try:
+                bval = {'b': list(t.encode(enc))}
+            except UnicodeEncodeError:
+                continue
+            for xval in (bval, {'s': t}):
+                for between in (False, True):
+                    for expr in (False, True):
+                        H = [_var('x', True, expr)]
+                        if between:
+                            H = [_lit(SENT_A)] + H + [_lit(SENT_B)]
+                        inner = (SENT_A if between else '') + _esc(t) + (SENT_B if between else '')
+                        single = place_blocks(H)
+                        todo = [(n, single[n], PLACE_EXPECT[n]) for n in names]
+                        if tier == 'thorough' or (between != expr):
+                            for a, b in r.sample(pairs, 60 if tier == 'thorough' else 12):
+                                (pa, ta, qa), (pb, tb, qb) = PLACE_EXPECT[a], PLACE_EXPECT[b]
+                                todo.append((a + '/' + b, place_blocks(single[b])[a], (pa + pb, ta * tb, qb + qa)))
+                        for n, blocks, (pre, times, post) in todo:
+                            cases.append(model_case(blocks, xval, enc, [_lit('s')]))
+                            meta.append((n, enc, t, pre + inner * times + post))
+                            # the same place in a sub-template that the main template calls by name
+                            if '/' not in n:
+                                cases.append(model_case([_lit('('), _var('sub0'), _lit(')')], xval, enc, blocks))
+                                meta.append(('sub:' + n, enc, t, '(' + pre + inner * times + post + ')'))
+    runs = interp.run_cases(res, cases)
+    if len(runs) != len(cases):
+        res.harness_errors.append('places: the driver answered %d of %d cases' % (len(runs), len(cases)))
+        return
+    for (c, plan, impl, m), (n, enc, t, want) in zip(runs, meta):
+        res.evaluations += 1
+        res.count('place_model_cases')
+        if impl['result'] != {'ok': {'s': want}}:
+            res.oracle_fail.append({'case': {'kind': 'place-model', 'place': n, 'encoding': enc, 'text': t,
+                                             'source': c['templates'][0]['source'], 'sub': c['templates'][1]['source'],
+                                             'x': c['kw'][0][1], 'expected': want},
+                                    'what': 'place %s: result %r, expected %r' % (n, impl['result'], want)})
+        if m is None:
+            continue
+        d = interp.compare(impl, m)
+        if d == 'oom':
+            res.count('place_outside_model')
+            continue
+        res.corr_checked += 1
+        if d:
+            res.corr_mismatch.append({'case': dict(interp.brief(c), encoding=enc, place=n), 'impl': impl['result'],
+                                      'model': m['result'], 'diff': d})
+
+
+# ----------------------------------------------------------------------------------------------
+# (D) COMPOSITIONS: ONE rendering put together by SEVERAL template objects, each with an encoding (and a class, and a way
+# it came into being) of its own.  Template i inserts its own variable v<i> -- bytes in ITS encoding, text, tainted text or
+# an object -- with the simple quoting forms, a shared text s, and calls templates of higher number in every way a
+# template can be called from a template (by name in the three spellings, through an expression with the namespace
+# handed on, through _[...] / _.render, quoted -- the called template's text is then escaped once more --, as an
+# attribute of the object of a with block) from every kind of section (top level, loop body, else block of a loop,
+# if, with, let, try, previous/next else).  Every composition is rendered several times: from the top, from an inner
+# template directly, from the top again, with new data each time.
+# Expected: the reference below -- concatenation of the pieces; an insertion is html.escape of the text the value
+# stands for, where bytes stand for their decoding in the encoding of the template the insertion is WRITTEN in.
+
+COMPOSE_ENCODINGS = [None, 'utf-8', 'latin-1', 'cp1252', 'utf-16']
+PROVENANCES = ['new', 'new', 'cooked', 'pickled', 'pickled-cooked', 'munged', 'copied', 'subclass']
+CALLS = [('<dtml-var §>', False), ('<!--#var §-->', False), ('<dtml-var name=§>', False), ('<dtml-var name="§">', False),
+         ('<dtml-var "§(None, _)">', False), ('<dtml-var expr="§(None, _)">', False), ('<dtml-var "_[\'§\']">', False),
+         ('<dtml-var "_.render(§)">', False), ('<dtml-var "_.getitem(\'§\', 1)">', False),
+         ('<dtml-with wobj><dtml-var §></dtml-with>', False), ('<dtml-var "wobj.§(None, _)">', False),
+         ('&dtml-§;', True), ('<dtml-var § html_quote>', True), ('<dtml-var expr="§(None, _)" html_quote>', True)]
+CALLS_E = [('%(§)s', False), ('%(var §)s', False), ('%(§ html_quote)s', True)]
+CALL_WRAPS = [('', '', 1), ('', '', 1), ('<dtml-in seq2>', '</dtml-in>', 2), ('<dtml-in empty>n<dtml-else>', '</dtml-in>', 1),
+              ('<dtml-if one>', '</dtml-if>', 1), ('<dtml-if zero>n<dtml-else>', '</dtml-if>', 1),
+              ('<dtml-with wobj>', '</dtml-with>', 1), ('<dtml-let q=one>', '</dtml-let>', 1),
+              ('<dtml-try>', '<dtml-except>h</dtml-try>', 1),
+              ('<dtml-try><dtml-raise KeyError>k</dtml-raise><dtml-except>', '</dtml-try>', 1),
+              ('<dtml-in seq3 previous size=2 start=1>n<dtml-else>', '</dtml-in>', 1),
+              ('<dtml-in seq3 next size=1>', '<dtml-else>n</dtml-in>', 1), ('<dtml-in seq3 size=2>', '</dtml-in>', 2)]
+CALL_WRAPS_E = [('', '', 1), ('%(in seq2)[', '%(in)]', 2), ('%(in empty)[n%(else)[', '%(in)]', 1), ('%(if one)[', '%(if)]', 1)]
+COMPOSE_ALPHA = list(SPECIALS) * 2 + ['a', ' ', ';', 'é', 'ü', 'ß', 'ÿ', 'Ä', '&amp;', 'b>']      # encodable everywhere
+
+
+def gen_composition(r):
+    n = r.choice([2, 2, 2, 3, 3, 4])
+    ts = []
+    for i in range(n):
+        ts.append({'syntax': 'html' if r.random() < 0.8 else 'epfs', 'encoding': r.choice(COMPOSE_ENCODINGS),
+                   'prov': r.choice(PROVENANCES)})
+    if len({t['encoding'] or 'utf-8' for t in ts}) == 1 and r.random() < 0.9:
+        ts[-1]['encoding'] = r.choice([e for e in COMPOSE_ENCODINGS[1:] if e != (ts[0]['encoding'] or 'utf-8')])
+    for i, t in enumerate(ts):
+        epfs = t['syntax'] == 'epfs'
+        simple = PLACE_SIMPLE_E if epfs else PLACE_SIMPLE
+        pieces = []
+        must = [i + 1] if i + 1 < n else []             # every template is called by the one before it, at least
+        for _ in range(r.randint(1, 4)):
+            c = r.random()
+            if c < 0.45:
+                pieces.append(['own', r.choice(simple).replace(' x', ' v%d' % i).replace('-x;', '-v%d;' % i)
+                               .replace('=x', '=v%d' % i).replace('"x"', '"v%d"' % i).replace('(x', '(v%d' % i)])
+            elif c < 0.55:
+                pieces.append(['shared', r.choice(simple[:2]).replace(' x', ' s').replace('-x;', '-s;').replace('(x', '(s')])
+            elif c < 0.85 and i + 1 < n:
+                must.append(r.randrange(i + 1, n))
+            else:
+                pieces.append(['lit', r.choice(['|', 'lit', '<b>', ';', "'"] if not epfs else ['|', 'lit', ';'])])
+        if not any(p[0] == 'own' for p in pieces):
+            pieces.append(['own', simple[0].replace('-x;', '-v%d;' % i).replace('(x', '(v%d' % i)])
+        for j in must:
+            how, quoted = r.choice(CALLS_E if epfs else CALLS)
+            o, c, times = r.choice(CALL_WRAPS_E if epfs else CALL_WRAPS)
+            pieces.insert(r.randint(0, len(pieces)), ['call', j, o + how.replace('§', 't%d' % j) + c, quoted, times])
+        t['pieces'] = pieces
+        t['source'] = ''.join(p[1] if p[0] != 'call' else p[2] for p in pieces)
+    return ts
+
+
+def gen_composition_data(r, ts):
+    def text():
+        while True:
+            s = ''.join(r.choice(COMPOSE_ALPHA) for _ in range(r.choice([1, 2, 3, 5, 8])))
+            if any(c in s for c in SPECIALS) or any(ord(c) > 127 for c in s):
+                return s
+    data = {'s': {'t': 'str', 'v': text()}}
+    for i, t in enumerate(ts):
+        kind = r.choice(['bytes', 'bytes', 'bytes', 'text', 'tainted', 'obj'])
+        data['v%d' % i] = described(kind, text(), t['encoding'])
+    return data
+
+
+def composition_expected(ts, i, data):
+    out = []
+    for p in ts[i]['pieces']:
+        if p[0] == 'lit':
+            out.append(p[1])
+        elif p[0] == 'own':
+            out.append(_esc(data['v%d' % i]['v']))
+        elif p[0] == 'shared':
+            out.append(_esc(data['s']['v']))
+        else:
+            _, j, _src, quoted, times = p
+            inner = composition_expected(ts, j, data)
+            out.append((_esc(inner) if quoted else inner) * times)
+    return ''.join(out)
+
+
+def build_template(t):
+    import copy
+    import pickle
+    from DocumentTemplate import HTML, String
+    cls = HTML if t['syntax'] == 'html' else String
+    prov = t['prov']
+    if prov == 'subclass':
+        cls = type('App' + cls.__name__, (cls,), {})
+    kw = {'encoding': t['encoding']} if t['encoding'] else {}
+    if prov == 'munged':
+        ob = cls('something <dtml-var else missing> entirely' if t['syntax'] == 'html' else 'something else', **kw)
+        if t.get('munge_after_use'):
+            ob()
+        ob.munge(t['source'])
+        return ob
+    ob = cls(t['source'], **kw)
+    if prov in ('cooked', 'pickled-cooked', 'copied'):
+        ob.cook()
+    if prov in ('pickled', 'pickled-cooked'):
+        ob = pickle.loads(pickle.dumps(ob))
+    if prov == 'copied':
+        ob = copy.copy(ob)
+    return ob
+
+
+def run_composition(ts, history):
+    """new template objects; the renderings of `history` in order; returns the list of outputs"""
+    obs = [build_template(t) for t in ts]
+    outs = []
+    for target, data in history:
+        ns = place_namespace(None)
+        del ns['x']
+        ns['wobj'].__dict__.pop('x', None)
+        for k, d in data.items():
+            ns[k] = make_value(d)
+        for j, ob in enumerate(obs):
+            ns['t%d' % j] = ob
+        w = ns['wobj']
+        for k, v in ns.items():
+            if k != 'wobj':
+                setattr(w, k, v)
+        try:
+            outs.append(obs[target](**ns))
+        except Exception as e:  # noqa
+            outs.append(('EXC', type(e).__name__, str(e)[:80]))
+    return outs
+
+
+def check_compositions(res, tier, r):
+    n = 500 if tier == 'quick' else 8000
+    sampled = False
+    for _ in range(n):
+        ts = gen_composition(r)
+        if any(t['prov'] == 'munged' for t in ts) and r.random() < 0.5:
+            for t in ts:
+                t['munge_after_use'] = True
+        history = []
+        for k in range(r.choice([2, 3, 4])):
+            target = 0 if k == 0 or r.random() < 0.6 else r.randrange(len(ts))
+            history.append([target, gen_composition_data(r, ts)])
+        outs = run_composition(ts, history)
+        res.count('compositions')
+        res.count('composition_templates=%d' % len(ts))
+        res.count('composition_encodings=%d' % len({t['encoding'] or 'utf-8' for t in ts}))
+        for t in ts:
+            res.count('composition_prov=' + t['prov'])
+        for k, ((target, data), out) in enumerate(zip(history, outs)):
+            want = composition_expected(ts, target, data)
+            res.evaluations += 1
+            res.count('composition_renders')
+            res.nt(('compose', tuple(t['source'] for t in ts), tuple(t['encoding'] for t in ts), target,
+                    json.dumps(data, sort_keys=True)))
+            if out != want:
+                res.oracle_fail.append({
+                    'case': {'kind': 'compose', 'templates': [{k2: t[k2] for k2 in ('syntax', 'encoding', 'prov', 'source',
+                                                                                     'munge_after_use') if k2 in t}
+                                                              for t in ts],
+                             'history': history[:k + 1], 'expected': want},
+                    'what': 'rendering %d (template t%d of %s): output %r, expected %r (every insertion: html.escape of the '
+                            'value, bytes decoded with the encoding of the template the insertion is written in)'
+                            % (k + 1, target, [(t['syntax'], t['encoding']) for t in ts], out, want)})
+                break
+        if not sampled and len(ts) > 2 and not res.oracle_fail:
+            res.sample({'templates': [(t['encoding'], t['prov'], t['source']) for t in ts], 'data': history[0][1],
+                        'output': outs[0]})
+            sampled = True
 
 
 def run(res, tier, have_driver):
@@ -654,7 +1315,23 @@ def run(res, tier, have_driver):
                 'need no quoting, numbers, None, ASCII bytes, objects, a sub-template that inserts the same variables, empty tags and literal text, on the same '
                 'level and inside if / elif / else / unless / in (1 and 2 iterations, reverse) / with / let / try '
                 'blocks (depth <= 2); each compiled scene is rendered 2-6 times with changing data (tainted <-> '
-                'plain, same subject again); expected = concatenation of the per-piece expectations')
+                'plain, same subject again); expected = concatenation of the per-piece expectations; every scene template has '
+                'an encoding (default, utf-8, latin-1, cp1252), bz = non-ASCII bytes in that encoding inserted by the simple '
+                'quoting forms, sub2 = a second template object of ANOTHER encoding inserting its own bytes; the blocks '
+                'include the else block of dtml-in (empty sequence, batched, previous / next without such a batch) and the '
+                'handler / else / finally sections of dtml-try.  PLACES: the quoted insertion in every section of every '
+                'block tag (%d single places incl. all modes of dtml-in and their else blocks, raise message, sub-template, '
+                'comment, dtml-tree body, EPFS blocks; one place nested in another: 120 random pairs quick / all thorough), '
+                'alone in its section and between literals, dtml and SSI spelling of the frame, x insertion spellings (7 '
+                'simple, 7 full path) x template encodings (default, utf-8, latin-1, cp1252, utf-16) x a history of values '
+                'per compiled template (bytes in the template encoding, text, tainted, object, first value again); '
+                'expected from a hand-written table (text before, times rendered, text after) and html.escape.  '
+                'COMPOSITIONS: 2-4 template objects (HTML / String / application subclass; new, cooked, pickled, munged, '
+                'copied), each with its own encoding and its own bytes variable, calling each other in 14 ways (by name in '
+                'every spelling, expr with the namespace, _[..], _.render, _.getitem, attribute of a with object, quoted) '
+                'from 13 kinds of section, rendered 2-4 times from the top and from inner templates directly; expected = '
+                'reference evaluator (bytes stand for their decoding in the encoding of the template the insertion is '
+                'written in)' % (len(PLACE_EXPECT) + len(TEXT_PLACES) + len(TEXT_PLACES_E)))
     res.exhaustive = tier == 'thorough'
     vals = gen_values(tier, r)
     reqs = []
@@ -758,9 +1435,17 @@ def run(res, tier, have_driver):
                 res.nt(('bytes', enc, t))
     check_options(res, tier, common.rng('C03-options'))
     check_scenes(res, tier, common.rng('C03-scenes'))
+    check_places(res, tier, common.rng('C03-places'), have_driver)
+    res.have_driver = have_driver
+    corr_places(res, tier, common.rng('C03-place-model'))
+    check_compositions(res, tier, common.rng('C03-compose'))
     res.partial.append('option combinations and scenes are decided by the oracle on the real code only (no model '
                        'counterpart); html_quote + url_unquote(_plus) on values containing %, and comma insertion on '
                        'values with four digits in a row, are left to C15 (finding C15-double-unquote)')
+    res.partial.append('places: tied to the Lean interpreter by correspondence for utf-8 and latin-1 templates (the model has one '
+                       'encoding flag per rendering); cp1252 / utf-16 / default-encoding templates, the SSI / EPFS / entity '
+                       'spellings, tainted values, dtml-tree bodies and compositions of templates with DIFFERENT encodings '
+                       'are decided by the oracle on the real code only')
     res.partial.append('bytes through the full Var.render path (html_quote + another option, fmt=html-quote) are '
                        'decoded as Latin-1: known finding C03-bytes-fullpath; theorems cover str values and the '
                        'simple-form bytes path is tied by correspondence/oracle only')
@@ -786,9 +1471,37 @@ def replay(path):
         d = json.load(f)
     c = d['first']['case']
     syn = c.get('syntax', 'html')
+    if c.get('kind') == 'place':
+        # a new template object, the values of the history one after the other; the last rendering is the failing one
+        bad = place_case(syn, c['frame'], c['insertion'], c['encoding'], c['history'], tuple(c['expect']) if c['expect'] else None,
+                         c['mode'])
+        print(c['source'], 'encoding', c['encoding'])
+        if bad:
+            print('rendering %d: %r expected %r' % (bad[0] + 1, bad[1], bad[2]))
+        return 1 if bad else 0
+    if c.get('kind') == 'place-model':
+        from DocumentTemplate import HTML
+        sub = HTML(c['sub'], encoding=c['encoding'])
+        x = bytes(c['x']['b']) if 'b' in c['x'] else c['x']['s']
+        ns = place_namespace(x)
+        ns['sub0'] = ns['wobj'].sub0 = sub
+        ns['seq2'] = ns['wobj'].seq2 = [1, 2]
+        try:
+            out = HTML(c['source'], encoding=c['encoding'])(**ns)
+        except Exception as e:  # noqa
+            out = ('EXC', type(e).__name__, str(e)[:80])
+        print(c['source'], 'encoding', c['encoding'])
+        print(repr(out), 'expected', repr(c['expected']))
+        return 0 if out == c['expected'] else 1
+    if c.get('kind') == 'compose':
+        outs = run_composition(c['templates'], c['history'])
+        for t in c['templates']:
+            print(t)
+        print(repr(outs[-1]), 'expected', repr(c['expected']))
+        return 0 if outs[-1] == c['expected'] else 1
     if 'scene' in c:
         # a fresh template object, the earlier renderings in order, then the failing one
-        t = fresh_template(syn, c['scene'])
+        t = fresh_template(syn, c['scene'], c.get('encoding'))
         for h in c.get('history', []):
             render_scene(t, h)
         out = render_scene(t, c['data'])
